@@ -10,9 +10,10 @@ const FILES: &[(&str, &str)] = &[
     ("src/b.luau", "-- c2\nlocal value2 = 2\ndo end\nreturn value2\n"),
     ("src/lib/a.lua", "-- c3\nlocal value3 = 3\ndo end\nreturn value3\n"),
     ("src/lib/x/c.lua", "-- c4\nlocal value4 = 4\ndo end\nreturn value4\n"),
+    ("src/lib/src/a.lua", "-- c5\nlocal value5 = 5\ndo end\nreturn value5\n"),
 ];
 
-const PATTERNS: &[&str] = &["**", "*", "**/*.lua", "src/*.lua", "src/**", "src/lib/a.lua", "**/a.lua", "*.luau", "src/lib/**/*.lua", "**/lib/*", "src/*/a.lua", "nothing"];
+const PATTERNS: &[&str] = &["**", "*", "**/*.lua", "src/*.lua", "src/**", "src/lib/a.lua", "**/a.lua", "*.luau", "src/lib/**/*.lua", "**/lib/*", "src/*/a.lua", "nothing", "src/a.lua", "a.lua", "lib/a.lua", "**/src/a.lua"];
 const RULES: &[&str] = &["remove_comments", "rename_variables", "remove_empty_do"];
 
 /// independent matcher for the pattern alphabet: `**` = any number of directories, `*` = any run of non-separator characters
@@ -166,7 +167,7 @@ fn run_case(c: &Case, refs: &HashMap<(usize, Vec<&'static str>), String>) -> (u6
 
 pub fn run(tier: Tier) -> Report {
     let mut report = Report::new("C20", "exploration", tier);
-    report.rule = "trees = all 15 non-empty subsets of {src/a.lua, src/b.luau, src/lib/a.lua, src/lib/x/c.lua}; apply and skip lists each from {none} + the 12 patterns \
+    report.rule = "trees = all 31 non-empty subsets of {src/a.lua, src/b.luau, src/lib/a.lua, src/lib/x/c.lua, src/lib/src/a.lua}; apply and skip lists each from {none} + the 16 patterns \
         (`**`, `*`, `**/*.lua`, `src/*.lua`, `src/**`, a literal path, `**/a.lua`, `*.luau`, `src/lib/**/*.lua`, `**/lib/*`, `src/*/a.lua`, a non-matching literal) \
         (+ all pairs in thorough), in string and list form; placed at the top level or on rule 1, 2 or 3 of [remove_comments, rename_variables, remove_empty_do]; in place \
         and with an output directory. Oracle: an independent glob matcher decides which rules run on each file; the file's output must equal what darklua writes for that \
@@ -199,11 +200,11 @@ pub fn run(tier: Tier) -> Report {
         }
     }
     let mut cases = Vec::new();
-    for mask in 1..16u32 {
-        let files: Vec<usize> = (0..4).filter(|k| mask & (1 << k) != 0).collect();
+    for mask in 1..32u32 {
+        let files: Vec<usize> = (0..5).filter(|k| mask & (1 << k) != 0).collect();
         for apply in &lists {
             for skip in &lists {
-                if tier == Tier::Thorough && apply.len() == 2 && skip.len() == 2 && mask != 15 {
+                if tier == Tier::Thorough && apply.len() == 2 && skip.len() == 2 && mask != 31 {
                     continue; // pairs x pairs only on the full tree
                 }
                 for placement in [None, Some(0), Some(1), Some(2)] {
